@@ -16,7 +16,8 @@ func init() {
 			"drops the matching listing (objectMap / packMap) and are the only constructors' callers; ObjectDelete and DeleteOldObjectPackAndIndex drop the listing after the removal (a deferred drop registered before it counts); " +
 			"(listing-snapshot) every reader of the listings obtains list and set from objectListing/packListing in one locked step (no separate generate-then-read); " +
 			"(notify-publishes-index) the pack writer's Notify callback installed by ObjectStorage publishes s.index[h] and s.packs under muI and PackWriter.Close calls Notify only for a finished index. " +
-			"Not decided: visibility under every interleaving with other storage instances; the object cache.",
+			"(cached-slice-not-handed-out) an exported method of DotGit / ObjectStorage returns a cached slice field (directly, through a local, or through an unexported helper's result; fixpoint over the type's methods) only as a full slice " +
+			"expression s[a:b:b] or a copy, so that a caller's append cannot overwrite the shared listing. Not decided: visibility under every interleaving with other storage instances; the object cache; in-place modification of returned elements.",
 		Assumptions: []string{"rename within objects/ is the publication point of loose objects and packs"},
 		Run:         runC18,
 	})
@@ -30,6 +31,11 @@ func runC18(c *Ctx) {
 		return
 	}
 	info := pk.TypesInfo
+	// cached-slice-not-handed-out: the cached listings are slices; an exported accessor returns them only capped or copied
+	const r0 = "cached-slice-not-handed-out"
+	nEsc := SharedSliceEscape(c, r0, dotgitShort, "DotGit")
+	nEsc += SharedSliceEscape(c, r0, "storage/filesystem", "ObjectStorage")
+	c.Check(nEsc >= 2, r0, dotgitShort+".DotGit:accessors", 0, itoa(nEsc)+" exported methods that read a cached slice examined")
 	const r1 = "invalidate-after-publish"
 	dg := p.lookupType(dotgitShort, "DotGit")
 	objMap, packMap := fieldOf(dg, "objectMap"), fieldOf(dg, "packMap")
